@@ -19,6 +19,56 @@ OP = "dewey::DeweyOp"
 OPS = ["LE", "LT", "GE", "GT"]
 
 
+def _plus_one(t):
+    """i if t is i + 1"""
+    t = strip_refs(t)
+    if isinstance(t, tuple) and t and t[0] == "binop" and t[1] == "Add" and const_int(t[3]) == 1:
+        return t[2]
+    return None
+
+
+def next_is_eq(t):
+    """(i, negated) if the condition term holds exactly when the byte right after position i of the pattern is '=' -- however that is spelled:
+    pattern.get(i+1..i+2) == Some("="), pattern[i+1..].starts_with('='), pattern.as_bytes().get(i+1) == Some(&b'='), ...; else None"""
+    m = str_eq_lit(t)
+    if m and m[2] == "=":
+        for g in [s for s in subterms(m[1]) if is_call(s, "str>::get") or is_index_call(s)]:
+            rg = agg_variant(call_args(g)[1])
+            if rg and rg[1] == "Range" and strip_refs(call_args(g)[0]) == ("param", 1):
+                lo, hi = rg[2]
+                i = _plus_one(lo)
+                if i is not None and isinstance(hi, tuple) and hi[0] == "binop" and hi[1] == "Add" and const_int(hi[3]) == 2 and hi[2] == i:
+                    return (i, m[0])
+        return None
+    t0 = strip_refs(t)
+    if is_call(t0, "str>::starts_with") and len(call_args(t0)) == 2 and (const_char(call_args(t0)[1]) == "=" or const_str(call_args(t0)[1]) == "="):
+        x = content(call_args(t0)[0])
+        if is_index_call(x) and content(call_args(x)[0]) == ("param", 1):
+            rg = canon_range(call_args(x)[0], call_args(x)[1])
+            if rg is not None and _plus_one(rg[0]) is not None:
+                hi_ok = rg[1] == LEN or (isinstance(rg[1], tuple) and rg[1][0] == "binop" and rg[1][1] == "Add" and rg[1][2] == _plus_one(rg[0]) and (const_int(rg[1][3]) or 0) >= 2)
+                if hi_ok:
+                    return (_plus_one(rg[0]), False)
+        return None
+    e = eq_call(t)
+    if e:
+        neg, a, b = e
+        for x, y in ((a, b), (b, a)):
+            ya = agg_variant(strip_refs(y))
+            byte = const_int(ya[2][0]) if ya and ya[1] == "Some" and len(ya[2]) == 1 else const_int(y)
+            if byte != 0x3d:
+                continue
+            x0 = strip_refs(x)
+            if is_call(x0, "Option::copied", "Option::cloned"):
+                x0 = strip_refs(call_args(x0)[0])
+            opt = ya is not None
+            if (opt and is_call(x0, "slice::<impl [T]>::get") and len(call_args(x0)) == 2) or (not opt and is_index_call(x0)):
+                base = strip_refs(call_args(x0)[0])
+                if is_call(base, "str>::as_bytes") and strip_refs(call_args(base)[0]) == ("param", 1) and _plus_one(call_args(x0)[1]) is not None:
+                    return (_plus_one(call_args(x0)[1]), neg)
+    return None
+
+
 def run(ctx):
     fx = ctx.fx
     paths = ctx.paths(DN)
@@ -36,22 +86,17 @@ def run(ctx):
                 if m and m[2] in (">", "<") and ((c.fact == ("eq", True)) != m[0]):
                     ch = m[2]
                     item = m[1]
-            eqf = False
+            eqs = []
             for c in p.conds():
-                m = str_eq_lit(c.term)
-                if m and m[2] == "=" and ((c.fact == ("eq", True)) != m[0]):
-                    g = [s for s in subterms(m[1]) if is_call(s, "str>::get")]
-                    ok_next = False
-                    if g:
-                        rg = agg_variant(call_args(g[0])[1])
-                        if rg and rg[1] == "Range":
-                            lo, hi = rg[2]
-                            ok_next = lo[0] == "binop" and lo[1] == "Add" and const_int(lo[3]) == 1 and hi[0] == "binop" and const_int(hi[3]) == 2 and lo[2] == hi[2] and strip_refs(call_args(g[0])[0]) == ("param", 1)
-                    eqf = ok_next
+                m = next_is_eq(c.term)
+                if m:
+                    eqs.append((m[0], (c.fact == ("eq", True)) != m[1]))
             if len(pushes) != 1 or ch is None:
                 ctx.violation("D1-SCAN", DN, "scan-path", "a scan-loop iteration does not push exactly one operator record for a matched '<'/'>'", fn_span(body))
                 continue
             idx, start, opt = pushes[0].args[1][4]
+            # '=' follows the matched operator character: the test must be about the position right after THIS match
+            eqf = any(v for i, v in eqs if i == idx)
             a = agg_variant(opt)
             k = const_int(start[3]) if isinstance(start, tuple) and start[0] == "binop" and start[1] == "Add" and start[2] == idx else None
             from_match = mentions(idx, lambda s: is_call(s, "::next")) and mentions(idx, lambda s: is_call(s, "str>::match_indices"))
@@ -71,25 +116,43 @@ def run(ctx):
         # ---- validation table
         rets = ret_paths(paths)
 
-        def ops_len(t):
-            return is_call(t, "Vec::len") and isinstance(strip_refs(call_args(t)[0]), tuple) and strip_refs(call_args(t)[0])[0] in ("havoc", "mutated")
+        def is_ops(cl):
+            return isinstance(cl, tuple) and bool(cl) and cl[0] in ("havoc", "mutated")
+
+        def count_fact(c):
+            """allowed(n) if the condition constrains the number of operator records (deweyops.len() switch / comparison, slice-pattern length test)"""
+            lf = length_fact(c)
+            return lf[1] if lf is not None and is_ops(lf[0]) else None
+
+        def count_of(p):
+            """the operator count a path is about: the only n in 0..5 its length conditions allow, else None"""
+            fs = [count_fact(c) for c in p.conds()]
+            fs = [f for f in fs if f is not None]
+            ns = [n for n in range(6) if all(f(n) for f in fs)]
+            return ns[0] if fs and len(ns) == 1 else None
+
+        def rec_field(t):
+            """(i, f) if t is deweyops[i].f -- through Index::index or a slice-pattern binding"""
+            t = strip_refs(t)
+            while isinstance(t, tuple) and t and t[0] == "deref":
+                t = strip_refs(t[1])
+            if isinstance(t, tuple) and t and t[0] == "field":
+                el = element_of(t[1])
+                if el is not None and is_ops(el[0]):
+                    return (el[1], t[2])
+            return None
 
         def op_at(t):
             """i if t is deweyops[i].2"""
-            t = strip_refs(t)
-            if isinstance(t, tuple) and t[0] == "field" and t[2] == 2:
-                ix = strip_refs(t[1])
-                if is_index_call(ix):
-                    return const_int(call_args(ix)[1])
-            return None
+            r = rec_field(t)
+            return r[0] if r is not None and r[1] == 2 else None
 
         def consistent(p, n, kinds):
             for c in p.conds():
                 t = c.term
-                if ops_len(t):
-                    if c.fact[0] == "eq" and c.fact[1] != n:
-                        return False
-                    if c.fact[0] == "ne" and n in c.fact[1]:
+                cf = count_fact(c)
+                if cf is not None:
+                    if not cf(n):
                         return False
                 elif t[0] == "discr":
                     i = op_at(t[1])
@@ -123,7 +186,7 @@ def run(ctx):
 
         # ---- slices
         def rec(i, f):
-            return lambda t: isinstance(strip_refs(t), tuple) and strip_refs(t)[0] == "field" and strip_refs(t)[2] == f and is_index_call(strip_refs(strip_refs(t)[1])) and const_int(call_args(strip_refs(strip_refs(t)[1]))[1]) == i
+            return lambda t: rec_field(t) == (i, f)
 
         def slice_of(t):
             t = strip_refs(t)
@@ -132,10 +195,7 @@ def run(ctx):
             return None
         oks = [p for p in rets if unwrap_ok(p.end[1]) is not None]
         for p in oks:
-            n = None
-            for c in p.conds():
-                if ops_len(c.term) and c.fact[0] == "eq":
-                    n = c.fact[1]
+            n = count_of(p)
             dm = p.calls("dewey::DeweyMatch::new")
             want = {1: [((0, 1), "len", 0)], 2: [((0, 1), (1, 0), 0), ((1, 1), "len", 1)]}.get(n)
             ok = want is not None and len(dm) == len(want)
@@ -151,34 +211,42 @@ def run(ctx):
             okb = base is not None and const_int(base[0]) == 0 and rec(0, 0)(base[1])
             ctx.check(ok and okb, "D1-SLICES", DN, "count=%s" % n, "bounds and base are the slices between the operator records",
                       "with %s operator(s) the bound texts / base are not pattern[ops[i].1 .. next operator or end] and pattern[0 .. ops[0].0]" % n, fn_span(body))
-    # every compiled bound is kept: the vector returned as `matches` is only ever pushed to, once per bound, in order
+    # every compiled bound is kept, in order: the vector returned as `matches` is built only from the compiled bounds -- either a vector that is only
+    # ever pushed to, once per bound, or a vector literal of them
     if paths:
-        mloc = None
+        bad_mut = set()
+        npush = {}
+        in_order = True
         for p in oks:
             v = unwrap_ok(p.end[1])
             a = agg_variant(v)
             t = dict(zip(v[5], a[2])).get("matches")
+            dm = [e.term for e in p.calls("dewey::DeweyMatch::new")]
+            stored = None
             if isinstance(t, tuple) and t[0] in ("havoc", "mutated"):
                 mloc = t[1]
-        bad_mut = set()
-        npush = {}
-        for p in oks:
-            k = 0
-            for e in p.events:
-                if e.kind == "call" and e.args and isinstance(e.args[0], tuple) and e.args[0][0] == "refmut" and isinstance(e.args[0][1], tuple) and e.args[0][1][:2] == ("loc", mloc):
-                    if e.name.endswith("Vec::push") and find_calls(e.args[1], "dewey::DeweyMatch::new"):
-                        k += 1
-                    else:
-                        bad_mut.add(e.name.split("::")[-1])
-            nn = None
-            for c in p.conds():
-                if ops_len(c.term) and c.fact[0] == "eq":
-                    nn = c.fact[1]
-            npush[nn] = k
-        ctx.check(mloc is not None and not bad_mut and npush.get(1) == 1 and npush.get(2) == 2, "D1-BOUNDS-KEPT", DN, "every-bound-stored",
-                  "the returned bounds are exactly the compiled ones (1 or 2 pushes, nothing removed)",
-                  "the bounds vector is also modified by %s / holds %s bounds for 1,2 operators: a compiled bound is dropped or altered, so a name no longer has to satisfy every bound (e.g. `>=0` is a real bound: 0rc1 sorts below 0)"
-                  % (sorted(bad_mut) or "-", npush), fn_span(body))
+                stored = []
+                for e in p.events:
+                    if e.kind == "call" and e.args and isinstance(e.args[0], tuple) and e.args[0][0] == "refmut" and isinstance(e.args[0][1], tuple) and e.args[0][1][:2] == ("loc", mloc):
+                        if e.name.endswith("Vec::push"):
+                            stored.append(e.args[1])
+                        else:
+                            bad_mut.add(e.name.split("::")[-1])
+            elif is_call(strip_refs(t), "::into_vec") and agg_variant(call_args(strip_refs(t))[0]) is None and isinstance(call_args(strip_refs(t))[0], tuple) and call_args(strip_refs(t))[0][:2] == ("agg", "array"):
+                stored = list(call_args(strip_refs(t))[0][4])
+            if stored is None:
+                npush[count_of(p)] = None
+                continue
+            # element i is the Ok payload of the i-th DeweyMatch::new call of the path
+            for i, x in enumerate(stored):
+                c = find_calls(x, "dewey::DeweyMatch::new")
+                if not (c and i < len(dm) and c[0] == dm[i]):
+                    in_order = False
+            npush[count_of(p)] = len(stored)
+        ctx.check(bool(oks) and not bad_mut and in_order and npush.get(1) == 1 and npush.get(2) == 2, "D1-BOUNDS-KEPT", DN, "every-bound-stored",
+                  "the returned bounds are exactly the compiled ones (1 or 2 of them, in order, nothing removed)",
+                  "the bounds vector is also modified by %s / holds %s bounds for 1,2 operators%s: a compiled bound is dropped, reordered or altered, so a name no longer has to satisfy every bound (e.g. `>=0` is a real bound: 0rc1 sorts below 0)"
+                  % (sorted(bad_mut) or "-", npush, "" if in_order else " / not in the order compiled"), fn_span(body))
     DMN = "dewey::DeweyMatch::new"
     ps = ctx.paths(DMN)
     if ps:
